@@ -135,8 +135,15 @@ func VerifC18OneHop(h *verifh.H) {
 	runToFixpoint := func() []string {
 		sink.delivered = nil
 		last := ""
-		for r := 0; r < 6; r++ {
+		for r := 0; r < 7; r++ {
 			_, err := pl.sync(j, context.Background())
+			if err != nil && sink.failBatch >= 0 {
+				// the injected sink failure interrupted this run: the job is run again, as a
+				// scheduler would, with a sink that works
+				sink.failBatch = -1
+				last = "<failed>"
+				continue
+			}
 			h.Assert(err == nil, "run succeeds")
 			st := &SyncJobState{}
 			_ = hub.Store.GetObject(server.JobDataIndex, "ms-job", st)
@@ -159,6 +166,11 @@ func VerifC18OneHop(h *verifh.H) {
 	// one change to the dependency dataset (new entity, changed entity, rewired or removed link)
 	did := dIDs[h.Choice("chgD", 2)]
 	writeD(did, "d1", refChoice("chgRef", mIDs))
+	// optionally the sink rejects one of the next two batches, interrupting the run in the
+	// middle of the fan-out; what was delivered before and after the interruption counts
+	if k := h.Choice("sinkFailAt", 3); k > 0 {
+		sink.failBatch = sink.calls + k - 1
+	}
 	emitted := runToFixpoint()
 	// expected: main entities connected to the changed dependency entity
 	want := map[string]bool{}
